@@ -539,7 +539,7 @@ def f_thread_pool(case):
     pool = ThreadPool("pool", num_workers=1 + k[0] % 3, queue_policy=mk_policy(k[1], k[2], k[3], 0, holder),
                       default_processing_time=ticks(1 + k[4] % 3))
     holder["e"] = pool
-    pool2 = ThreadPool("pool2", num_workers=2, queue_capacity=3,
+    pool2 = ThreadPool("pool2", num_workers=1 + k[6] % 2, queue_capacity=[0, 1, 3][k[7] % 3],
                        processing_time_extractor=lambda e: ticks(1 + e.context.get("prio", 0)))
     n = 40
     src = const_source("src", pool, 1 + k[5] % 2, n, case["seed"])
@@ -558,8 +558,11 @@ def f_async_server(case):
     def io(event):
         yield ticks(1 + event.context.get("prio", 0))
         return [Event(time=srv.now, event_type="Done", target=sink, context=event.context)]
-    srv = AsyncServer("async", max_connections=2 + k[0] % 6, cpu_work_distribution=[ConstantLatency(ticks(1 + k[1] % 2)), ExponentialLatency(ticks(1))][k[2] % 2],
-                      io_handler=io if k[3] % 3 else None)
+    io_list = lambda event: [Event(time=srv.now, event_type="Done", target=sink, context=event.context)]   # noqa: E731
+    io_one = lambda event: Event(time=srv.now, event_type="Done", target=sink, context=event.context)      # noqa: E731
+    handler = [None, io, io, io_list, io_one, (lambda event: None)][k[3] % 6]       # every documented handler shape
+    srv = AsyncServer("async", max_connections=[2 + k[0] % 6, 10000][k[4] % 2], cpu_work_distribution=[ConstantLatency(ticks(1 + k[1] % 2)), ExponentialLatency(ticks(1)), None][k[2] % 3],
+                      io_handler=handler)
     n = 50
     src = const_source("src", srv, 1, n, case["seed"])
     src2 = poisson_source("src2", srv, 150.0, n, case["seed"] + 5)
@@ -576,10 +579,12 @@ def f_industrial_line(case):
     router = ind.ConditionalRouter.by_context_field("router", "flow", {0: bad_a, 1: bad_b}, default=other)
     pooled = ind.PooledCycleResource("pooled", pool_size=1 + k[0] % 3, cycle_time=ticks(1 + k[1] % 4), downstream=good,
                                      queue_capacity=[0, 2, 6][k[2] % 3])
-    batch = ind.BatchProcessor("batch", pooled, batch_size=2 + k[3] % 4, process_time=ticks(1 + k[4] % 3),
-                               timeout_s=[0.0, ticks(3), ticks(7)][k[5] % 3])
+    batch = ind.BatchProcessor("batch", pooled, batch_size=1 + k[3] % 5, process_time=ticks([0, 1 + k[4] % 3, 9][k[4] % 3]),
+                               timeout_s=[0.0, ticks(1), ticks(3), ticks(7)][k[5] % 4])
+    holder = {}
     insp = ind.InspectionStation("inspect", pass_target=batch, fail_target=router, inspection_time=ticks(1 + k[6] % 2),
-                                 pass_rate=[0.95, 0.7, 0.5][k[7] % 3])
+                                 pass_rate=[1.0, 0.95, 0.7, 0.5, 0.0][k[7] % 5], policy=[None, mk_policy(k[5], k[6], k[7], 3, holder)][k[6] % 2])
+    holder["e"] = insp
     belt = ind.ConveyorBelt("belt", insp, transit_time=ticks(1 + k[1] % 5), capacity=[0, 3][k[0] % 2])
     appts = ind.AppointmentScheduler("appts", belt, [ticks(2 * i + 1) for i in range(20)], no_show_rate=[0.0, 0.3][k[2] % 2])
     n = 40
@@ -600,11 +605,13 @@ def f_industrial_gate_shift(case):
         ln = 4 + (k[i] % 12)
         shifts.append(ind.Shift(ticks(t0), ticks(t0 + ln), (k[(i + 1) % 8] + i) % 3))
         t0 += ln + (k[i + 4] % 3) * 2
-    srv = ind.ShiftedServer("shifted", ind.ShiftSchedule(shifts, default_capacity=k[7] % 2), service_time=ticks(1 + k[6] % 3),
-                            downstream=sink)
+    holder = {}
+    srv = ind.ShiftedServer("shifted", ind.ShiftSchedule(shifts, default_capacity=k[7] % 2), service_time=ticks([1 + k[6] % 3, 14][k[6] % 4 == 0]),
+                            downstream=sink, policy=[None, mk_policy(k[1], k[2], k[3], 4, holder)][k[0] % 2])
+    holder["e"] = srv
     gate = ind.GateController("gate", srv, schedule=[(ticks(10 + k[0] % 5), ticks(30 + k[1] % 9)), (ticks(50), ticks(70 + k[2] % 9))],
                               initially_open=bool(k[3] % 2), queue_capacity=[0, 4][k[4] % 2])
-    brk = ind.BreakdownScheduler("breakdown", srv, mean_time_to_failure=ticks(20 + k[5] % 20), mean_repair_time=ticks(3 + k[6] % 5))
+    brk = ind.BreakdownScheduler("breakdown", srv, mean_time_to_failure=ticks([2, 20 + k[5] % 20][k[5] % 3 > 0]), mean_repair_time=ticks([3 + k[6] % 5, 40][k[6] % 3 == 0]))
     n = 60
     src = const_source("src", gate, 1 + k[5] % 2, n, case["seed"])
     src2 = poisson_source("src2", gate, 100.0, n, case["seed"] + 1)
@@ -617,11 +624,15 @@ def f_industrial_inventory(case):
     from happysimulator.components import industrial as ind
     k = K(case)
     ful, out, waste, sup = Sink("fulfilled"), Sink("stockout"), Sink("waste"), Sink("supplier")
-    inv = ind.InventoryBuffer("inv", initial_stock=3 + k[0] % 10, reorder_point=1 + k[1] % 4, order_quantity=2 + k[2] % 8,
-                              lead_time=ticks(2 + k[3] % 10), supplier=sup, downstream=ful, stockout_target=out)
-    per = ind.PerishableInventory("perish", initial_stock=3 + k[4] % 10, shelf_life_s=ticks(6 + k[5] % 30),
-                                  spoilage_check_interval_s=ticks(3 + k[6] % 6), reorder_point=1 + k[1] % 4,
-                                  order_quantity=2 + k[2] % 8, lead_time=ticks(2 + k[7] % 10), downstream=ful, waste_target=waste)
+    rnd = rng_of(case, 92)
+    opt = lambda x: x if rnd.randrange(3) else None      # noqa: E731  (optional collaborators present / absent)
+    inv = ind.InventoryBuffer("inv", initial_stock=[0, 3 + k[0] % 10][rnd.randrange(4) > 0], reorder_point=k[1] % 5, order_quantity=1 + k[2] % 9,
+                              lead_time=ticks(rnd.choice([1, 2 + k[3] % 10, 40])), supplier=opt(sup), downstream=opt(ful), stockout_target=opt(out))
+    sweep = ticks(3 + k[6] % 6)
+    per = ind.PerishableInventory("perish", initial_stock=[0, 3 + k[4] % 10][rnd.randrange(4) > 0], shelf_life_s=sweep * rnd.choice([0.5, 1.0, 2.5, 8.0]),
+                                  spoilage_check_interval_s=sweep, reorder_point=k[1] % 5,
+                                  order_quantity=1 + k[2] % 9, lead_time=ticks(rnd.choice([1, 2 + k[7] % 10, 40])), downstream=opt(ful), waste_target=opt(waste),
+                                  initial_stock_time=rnd.choice([None, 0.0]))
     n = 60
     a = const_source("ca", inv, 1 + k[0] % 3, n, case["seed"], etype="Consume")
     b = poisson_source("cb", per, 120.0, n, case["seed"] + 2, etype="Consume")
@@ -698,7 +709,7 @@ def f_rate_limited_entity(case):
     sink = Sink("sink")
     srv = Server("srv", concurrency=2, service_time=ConstantLatency(ticks(1 + k[3] % 3)), downstream=sink)
     dec = bool(k[6] % 2)
-    rl = RateLimitedEntity("limiter", srv, mk_rl_policy(k[0], k[1], k[2], decimal=dec), queue_capacity=[1000, 5][k[4] % 2])
+    rl = RateLimitedEntity("limiter", srv, mk_rl_policy(k[0], k[1], k[2], decimal=dec), queue_capacity=[1000, 5, 1][k[4] % 3])
     null = NullRateLimiter("null", rl)
     n = 50
     if dec:      # arrivals every 25 ms / 50 ms: they hit the decimal window boundaries exactly
@@ -719,7 +730,7 @@ def f_inductor(case):
     k = K(case)
     sink = Sink("sink")
     srv = Server("srv", concurrency=2, service_time=ConstantLatency(ticks(1 + k[1] % 3)), downstream=sink)
-    ind = Inductor("inductor", srv, time_constant=ticks(4 + k[0] % 40), queue_capacity=[10000, 6][k[2] % 2])
+    ind = Inductor("inductor", srv, time_constant=[ticks(4 + k[0] % 40), ticks(1) / 64, 2.0][k[0] % 3], queue_capacity=[10000, 6, 1][k[2] % 3])
     n = 60
     a = const_source("a", ind, 2 + k[3] % 3, n, case["seed"])
     burst = poisson_source("burst", ind, 200.0 + 50 * (k[4] % 4), n // 2, case["seed"] + 1)
@@ -851,21 +862,49 @@ def f_load_balancer(case):
     else:
         strat = getattr(ls, name)()
     nb = 2 + k[2] % 3
-    backends = [Server(f"be{i}", concurrency=1 + (k[3] + i) % 2, service_time=ExponentialLatency(ticks(1 + (k[4] + i) % 4)),
-                       downstream=sink) for i in range(nb)]
-    slow = Replier("be_slow", ticks(12 + k[5] % 20), downstream=sink)
-    lb = LoadBalancer("lb", strategy=strat)
-    for i, b in enumerate(backends + [slow]):
-        lb.add_backend(b, weight=1 + (k[6] + i) % 3)
-    hc = HealthChecker("hc", lb, interval=ticks(8 + k[7] % 8), timeout=ticks(3 + k[1] % 5), healthy_threshold=1 + k[2] % 2,
-                       unhealthy_threshold=1 + k[3] % 2)
+    rnd = rng_of(case, 91)
+    fleet = rnd.choice(["mixed", "mixed", "all_slow", "recovering", "manual"])     # health of the fleet over time
+    mode = rnd.choice(["reject", "queue"])                                         # every accepted on_no_backend value
+    h_timeout = ticks(3 + k[1] % 5)
+    evs = []
+    if fleet in ("mixed", "manual"):
+        backends = [Server(f"be{i}", concurrency=1 + (k[3] + i) % 2, service_time=ExponentialLatency(ticks(1 + (k[4] + i) % 4)),
+                           downstream=sink) for i in range(nb)]
+        slow = [Replier("be_slow", ticks(12 + k[5] % 20), downstream=sink)]
+    elif fleet == "all_slow":          # every probe times out: the whole fleet is marked unhealthy
+        backends = [Replier(f"be{i}", ticks(9 + (k[4] + 3 * i) % 12), downstream=sink) for i in range(nb)]
+        slow = []
+    else:                              # slow until tick 50, fast afterwards: unhealthy, then recovering
+        holder = {}
+        backends = [Replier(f"be{i}", (lambda e, i=i: ticks(9 + i) if holder["lb"].now.nanoseconds < 50 * TICK else ticks(1 + i % 2)),
+                            downstream=sink) for i in range(nb)]
+        slow = []
+    members = backends + slow
+    if rnd.randrange(2):
+        lb = LoadBalancer("lb", backends=list(members), strategy=strat, on_no_backend=mode)
+        for i, b in enumerate(members):
+            lb.add_backend(b, weight=1 + (k[6] + i) % 3)       # documented: updates the weight of a registered backend
+    else:
+        lb = LoadBalancer("lb", strategy=strat, on_no_backend=mode)
+        for i, b in enumerate(members):
+            lb.add_backend(b, weight=1 + (k[6] + i) % 3)
+    if fleet == "recovering":
+        holder["lb"] = lb
+    hc = HealthChecker("hc", lb, interval=ticks(8 + k[7] % 8), timeout=h_timeout, healthy_threshold=1 + k[2] % 2,
+                       unhealthy_threshold=1 + k[3] % 2, check_event_type=rnd.choice(["health_check", "ping"]))
+    if fleet == "manual":              # an operator drains the whole fleet and brings it back
+        evs.append(Event.once(T(20 + k[5] % 10), "Drain", lambda e: [lb.mark_unhealthy(b) for b in lb.all_backends] and None))
+        evs.append(Event.once(T(60 + k[5] % 10), "Restore", lambda e: [lb.mark_healthy(b) for b in lb.all_backends] and None))
+        evs.append(Event.once(T(80), "Remove", lambda e: lb.remove_backend(members[-1]) and None))
     n = 36
     a = const_source("a", lb, 1 + k[4] % 2, n, case["seed"])
     b = poisson_source("b", lb, 120.0, n, case["seed"] + 1)
-    sim = mksim([lb, hc, slow, sink] + backends, n + 200, sources=[a, b])
-    sim.schedule(hc.start())
+    sim = mksim([lb, hc, sink] + members, n + 200, sources=[a, b], events=evs)
+    if fleet != "manual" or rnd.randrange(2):
+        sim.schedule(hc.start())
     return Scenario(sim, workload=2 * n, extra=lambda: {"healthy": sorted(b.name for b in lb.healthy_backends),
-                                                          "per_backend": {b.name: lb.get_backend_info(b).total_requests for b in lb.all_backends}})
+                                                          "per_backend": {b.name: lb.get_backend_info(b).total_requests for b in lb.all_backends}},
+                    variant=f"{mode}-{fleet}")
 
 
 # ------------------------------------------------------------------------------ clients
@@ -894,8 +933,9 @@ def f_client_retry(case):
     counts = {"ok": 0, "fail": 0}
     ok = lambda req, resp: counts.__setitem__("ok", counts["ok"] + 1)  # noqa: E731
     fail = lambda req, why: counts.__setitem__("fail", counts["fail"] + 1)  # noqa: E731
-    c1 = Client("c1", backend, timeout=ticks(2 + k[2] % 6), retry_policy=mk_retry(k[3], k[4], k[5]), on_success=ok, on_failure=fail)
-    c2 = Client("c2", srv, timeout=[None, ticks(3 + k[6] % 5)][k[7] % 2], retry_policy=mk_retry(k[3] + 1, k[5], k[4]),
+    c1 = Client("c1", backend, timeout=ticks([1, 2 + k[2] % 6, 40][k[2] % 3]), retry_policy=[mk_retry(k[3], k[4], k[5]), None][k[3] % 5 == 4],
+                on_success=[ok, None][k[4] % 3 == 0], on_failure=[fail, None][k[5] % 3 == 0])
+    c2 = Client("c2", srv, timeout=[None, ticks(1), ticks(3 + k[6] % 5)][k[7] % 3], retry_policy=mk_retry(k[3] + 1, k[5], k[4]),
                 on_success=ok, on_failure=fail)
     users = [Proc(f"user{i}", (lambda c: lambda self, e: [c.send_request(payload={"n": self.events_received}, event_type="GetUser")])(c))
              for i, c in enumerate([c1, c2, c1])]
@@ -912,11 +952,17 @@ def f_pooled_client(case):
     k = K(case)
     rnd = rng_of(case, 5)
     backend = Replier("backend", lambda e: ticks(1 + rnd.randrange(1 + k[0] % 6)))
-    pool = ConnectionPool("pool", backend, min_connections=k[1] % 2, max_connections=1 + k[2] % 3,
-                          connection_timeout=ticks(10 + k[3] % 30), idle_timeout=ticks(2 + k[4] % 12),
-                          connection_latency=ConstantLatency(ticks(1 + k[5] % 3)))
-    pc = PooledClient("pc", pool, timeout=ticks(3 + k[6] % 8), retry_policy=mk_retry(k[7], k[0], k[1]))
-    held = []
+    maxc = 1 + k[2] % 3
+    cb_log = []
+    pool = ConnectionPool("pool", backend, min_connections=[0, 1, maxc][k[1] % 3], max_connections=maxc,
+                          connection_timeout=ticks([2, 10 + k[3] % 30][k[3] % 2]), idle_timeout=ticks([1, 2 + k[4] % 12][k[4] % 3 > 0]),
+                          connection_latency=[None, ConstantLatency(ticks(1 + k[5] % 3)), ExponentialLatency(ticks(2))][k[5] % 3],
+                          on_acquire=[None, lambda c: cb_log.append("acq")][k[0] % 2], on_release=[None, lambda c: cb_log.append("rel")][k[1] % 2],
+                          on_timeout=[None, lambda: cb_log.append("timeout")][k[2] % 2])
+    counts = {"ok": 0, "fail": 0}
+    pc = PooledClient("pc", pool, timeout=[None, ticks(1), ticks(3 + k[6] % 8)][k[6] % 3], retry_policy=mk_retry(k[7], k[0], k[1]),
+                      on_success=[None, lambda req, resp: counts.__setitem__("ok", counts["ok"] + 1)][k[4] % 2],
+                      on_failure=[None, lambda req, why: counts.__setitem__("fail", counts["fail"] + 1)][k[5] % 2])
 
     def direct(self, e):
         try:
@@ -931,8 +977,11 @@ def f_pooled_client(case):
              Proc("u_direct", direct), Proc("u_direct2", direct)]
     n = 24
     srcs = [const_source(f"s{i}", u, 1 + (k[i + 2] % 3), n, case["seed"] + i, etype="Go") for i, u in enumerate(users)]
-    sim = mksim([pc, pool, backend] + users, n + 300, sources=srcs)
-    return Scenario(sim, workload=3 * n, extra=lambda: {"direct": [u.log for u in users[1:]]})
+    sim = mksim([pc, pool, backend] + users, n + 300, sources=srcs,
+                events=[Event.once(T(n + 250), "Teardown", lambda e: pool.close_all())] if k[7] % 2 else [])
+    if k[1] % 3 and k[3] % 4 != 3:
+        sim.schedule(pool.warmup())
+    return Scenario(sim, workload=3 * n, extra=lambda: {"direct": [u.log for u in users[1:]], "cb": len(cb_log), **counts})
 
 
 # ------------------------------------------------------------------------------ resilience wrappers
@@ -944,20 +993,27 @@ def f_resilience_chain(case):
     rnd = rng_of(case, 7)
     backend = Replier("backend", lambda e: ticks(1 + rnd.randrange(1 + k[0] % 12)))
     backend2 = Replier("backend2", ticks(1 + k[1] % 3))
+    missed = Collector("missed")
+    changes = []
     bh = rs.Bulkhead("bulkhead", backend, max_concurrent=1 + k[2] % 3, max_wait_queue=k[3] % 4,
-                     max_wait_time=[None, ticks(2 + k[4] % 6)][k[4] % 2])
-    cb = rs.CircuitBreaker("breaker", bh, failure_threshold=1 + k[5] % 3, success_threshold=1 + k[6] % 2, timeout=ticks(6 + k[7] % 20),
-                           half_open_max_requests=1 + k[0] % 2, failure_predicate=lambda e: e.context.get("prio", 0) == 3)
-    tw = rs.TimeoutWrapper("timeout", cb, timeout=ticks(2 + k[1] % 8))
-    fb = rs.Fallback("fallback", tw, backend2 if k[2] % 2 else (lambda e: None), timeout=[None, ticks(3 + k[3] % 6)][k[5] % 2],
-                     failure_predicate=lambda e: e.context.get("prio", 0) == 2)
+                     max_wait_time=[None, ticks(1), ticks(2 + k[4] % 6)][k[4] % 3])
+    cb = rs.CircuitBreaker("breaker", bh, failure_threshold=1 + k[5] % 3, success_threshold=1 + k[6] % 2, timeout=ticks([1, 6 + k[7] % 20][k[7] % 2]),
+                           half_open_max_requests=1 + k[0] % 2, failure_predicate=[None, lambda e: e.context.get("prio", 0) == 3][k[0] % 3 > 0],
+                           on_state_change=[None, lambda a, b: changes.append((a.name, b.name))][k[1] % 2])
+    tw = rs.TimeoutWrapper("timeout", cb, timeout=ticks([1, 2 + k[1] % 8, 30][k[1] % 3]),
+                           on_timeout=[None, lambda e: Event(time=tw.now, event_type="TimedOut", target=missed, context=e.context),
+                                       lambda e: None][k[2] % 3])
+    fallbacks = [backend2, (lambda e: None), (lambda e: Event(time=fb.now, event_type="Degraded", target=missed, context=e.context))]
+    fb = rs.Fallback("fallback", tw, fallbacks[k[2] % 3], timeout=[None, ticks(1), ticks(3 + k[3] % 6)][k[5] % 3],
+                     failure_predicate=[None, lambda e: e.context.get("prio", 0) == 2][k[3] % 2])
     hedged = Replier("hedged_backend", lambda e: ticks(1 + rnd.randrange(1 + k[4] % 10)))
-    hg = rs.Hedge("hedge", hedged, hedge_delay=ticks(1 + k[6] % 5), max_hedges=1 + k[7] % 2)
+    hg = rs.Hedge("hedge", hedged, hedge_delay=ticks([1, 1 + k[6] % 5, 20][k[6] % 3]), max_hedges=1 + k[7] % 3)
     n = 40
     srcs = [const_source("a", fb, 1 + k[0] % 2, n, case["seed"]), poisson_source("b", fb, 150.0, n, case["seed"] + 1),
             const_source("c", hg, 1 + k[1] % 3, n, case["seed"] + 2), poisson_source("d", bh, 80.0, n, case["seed"] + 3)]
-    sim = mksim([fb, tw, cb, bh, hg, backend, backend2, hedged], n + 300, sources=srcs)
-    return Scenario(sim, workload=4 * n, extra=lambda: {"cb_state": cb.state})
+    ops = [Event.once(T(30 + k[0] % 20), "ForceOpen", lambda e: cb.force_open()), Event.once(T(70 + k[0] % 20), "ForceClose", lambda e: cb.force_close())] if k[4] % 4 == 0 else []
+    sim = mksim([fb, tw, cb, bh, hg, backend, backend2, hedged, missed], n + 300, sources=srcs, events=ops)
+    return Scenario(sim, workload=4 * n, extra=lambda: {"cb_state": cb.state, "changes": changes})
 
 
 # ------------------------------------------------------------------------------ sync primitives + Resource
@@ -987,7 +1043,12 @@ def f_sync_mutex(case):
 
     def work(self, e):
         yield ticks(e.context["i"] % 2)         # staggered arrival (0 or 1 tick)
-        yield from m.acquire(owner=self.name)
+        if (e.context["i"] + e.context["r"] + k[3]) % 4 == 0:      # non-blocking attempt first
+            if not m.try_acquire(owner=self.name):
+                self.log.append("busy")
+                yield from m.acquire(owner=self.name)
+        else:
+            yield from m.acquire(owner=self.name)
         yield ticks(1 + (k[0] + e.context["i"]) % 4)
         self.log.append(("cs", self.now.nanoseconds // TICK))
         return _rel(m.release())
@@ -1058,14 +1119,20 @@ def f_sync_condition(case):
         if i % 2 == 0:                                   # consumer (documented pattern)
             yield ticks(1)
             yield from m.acquire()
-            while not box:
-                yield from cv.wait()
+            if k[4] % 3 == 0:
+                while not box:
+                    yield from cv.wait()
+            else:
+                ok = yield from cv.wait_for(lambda: bool(box), timeout=[None, ticks(3)][k[4] % 3 - 1])
+                if not ok or not box:
+                    self.log.append("gave-up")
+                    return _rel(m.release())
             self.log.append(("got", box.pop(0), self.now.nanoseconds // TICK))
             return _rel(m.release())
         yield ticks(2 + (k[0] + i) % 4)                  # producer: one item per consumer round
         yield from m.acquire()
         box.append((i, e.context["r"]))
-        evs = cv.notify() if k[1] % 2 else cv.notify_all()
+        evs = cv.notify(1 + k[5] % 2) if k[1] % 2 else cv.notify_all()
         return _rel(m.release() + evs)
     return _sync_sim(case, [m, cv], work, 2 * (1 + k[2] % 2), 2 + k[3] % 3, extra=lambda: {"left": list(box)})
 
@@ -1095,9 +1162,9 @@ def f_resource_contention(case):
 def f_message_queue(case):
     from happysimulator.components.messaging import DeadLetterQueue, MessageQueue
     k = K(case)
-    dlq = DeadLetterQueue("dlq", capacity=[None, 5][k[0] % 2], retention_period=[None, ticks(40)][k[1] % 2])
-    q = MessageQueue("mq", delivery_latency=ticks(1 + k[2] % 4), redelivery_delay=ticks(2 + k[3] % 6),
-                     max_redeliveries=1 + k[4] % 3, capacity=[None, 8][k[5] % 2], dead_letter_queue=dlq)
+    dlq = DeadLetterQueue("dlq", capacity=[None, 1, 5][k[0] % 3], retention_period=[None, ticks(2), ticks(40)][k[1] % 3])
+    q = MessageQueue("mq", delivery_latency=ticks([1 + k[2] % 4, 9][k[2] % 5 == 0]), redelivery_delay=ticks([1, 2 + k[3] % 6, 30][k[3] % 3]),
+                     max_redeliveries=1 + k[4] % 3, capacity=[None, 2, 8][k[5] % 3], dead_letter_queue=[dlq, dlq, None][k[6] % 3])
     rnd = rng_of(case, 11)
 
     def consume(self, e):
@@ -1147,12 +1214,15 @@ def f_message_queue(case):
 def f_topic_pubsub(case):
     from happysimulator.components.messaging import Topic
     k = K(case)
-    topic = Topic("topic", delivery_latency=ticks(1 + k[0] % 4))
+    topic = Topic("topic", delivery_latency=ticks(1 + k[0] % 4), max_subscribers=[None, 2, 8][k[7] % 3])
     if k[1] % 2:
         topic.set_retain_messages(True, max_history=2 + k[2] % 5)
     subs = [Collector(f"sub{i}") for i in range(2 + k[3] % 3)]
     for sb in subs[:-1]:
-        topic.subscribe(sb)
+        try:
+            topic.subscribe(sb)
+        except RuntimeError:          # documented: raised when max_subscribers is reached
+            pass
 
     def pub(self, e):
         msg = Event(time=self.now, event_type="payload", target=self, context={"n": self.events_received})
@@ -1170,7 +1240,10 @@ def f_topic_pubsub(case):
         if self.events_received % 2:
             topic.unsubscribe(sb)
             return None
-        return from_lib(topic, topic.subscribe(sb, replay_history=bool(k[5] % 2)))
+        try:
+            return from_lib(topic, topic.subscribe(sb, replay_history=bool(k[5] % 2)))
+        except RuntimeError:          # documented: raised when max_subscribers is reached
+            return None
     ch = Proc("churn", churn)
     n = 30
     srcs = [const_source(f"s{i}", p, 1 + (k[6] + i) % 3, n, case["seed"] + i, etype="Go") for i, p in enumerate(pubs)]
@@ -1185,11 +1258,14 @@ def f_event_log_group(case):
     from happysimulator.components.streaming import consumer_group as cg
     from happysimulator.components.streaming.event_log import EventLog, SizeRetention, TimeRetention
     k = K(case)
-    pol = [None, TimeRetention(max_age_s=ticks(20 + k[0] % 20)), SizeRetention(max_records=3 + k[0] % 6)][k[1] % 3]
-    log = EventLog("log", num_partitions=1 + k[2] % 4, retention_policy=pol, append_latency=ticks(1 + k[3] % 3),
-                   read_latency=ticks(1), retention_check_interval=ticks(8 + k[4] % 8))
-    strat = [cg.RangeAssignment(), cg.RoundRobinAssignment(), cg.StickyAssignment()][k[5] % 3]
-    group = cg.ConsumerGroup("group", log, assignment_strategy=strat, rebalance_delay=ticks(1 + k[6] % 4), poll_latency=ticks(1))
+    from happysimulator.components.datastore import sharded_store as _ss
+    pol = [None, TimeRetention(max_age_s=ticks([2, 20 + k[0] % 20][k[0] % 2])), SizeRetention(max_records=1 + k[0] % 8)][k[1] % 3]
+    shard = [None, _ss.HashSharding(), _ss.RangeSharding(), _ss.ConsistentHashSharding(virtual_nodes=4, seed=case["seed"])][k[7] % 4]
+    log = EventLog("log", num_partitions=1 + k[2] % 4, sharding_strategy=shard, retention_policy=pol, append_latency=ticks(1 + k[3] % 3),
+                   read_latency=ticks(1), retention_check_interval=ticks([2, 8 + k[4] % 8, 60][k[4] % 3]))
+    strat = [None, cg.RangeAssignment(), cg.RoundRobinAssignment(), cg.StickyAssignment()][k[5] % 4]
+    group = cg.ConsumerGroup("group", log, assignment_strategy=strat, rebalance_delay=ticks([1, 1 + k[6] % 4, 12][k[6] % 3]), poll_latency=ticks(1),
+                             session_timeout=[None, ticks(2), ticks(40)][k[3] % 3])
     rnd = rng_of(case, 13)
 
     def produce(self, e):
@@ -1508,7 +1584,7 @@ def f_soft_ttl_cache(case):
         kv.put_sync(key, i)
     soft = 3 + k[1] % 8
     sc = SoftTTLCache("softttl", kv, soft_ttl=ticks(soft), hard_ttl=Duration((soft + 2 + k[2] % 10) * TICK),
-                      cache_capacity=[None, 3][k[3] % 2], cache_read_latency=ticks(1))
+                      cache_capacity=[None, 1, 3][k[3] % 3], cache_read_latency=[0.0, ticks(1), ticks(5)][k[4] % 3])
     workers, evs = kv_workers(sc, case, 3, 40, 9, ops=("put", "get", "get", "get", "get"))
     sim = mksim([kv, sc] + workers, 1500, events=evs)
     return Scenario(sim, workload=120, extra=_logs(workers))
@@ -1519,7 +1595,7 @@ def f_database(case):
     from happysimulator.components.datastore import Database
     k = K(case)
     lat = {"SELECT": ticks(1 + k[0] % 3), "UPDATE": ticks(2 + k[1] % 3)}
-    db = Database("db", max_connections=1 + k[2] % 3, query_latency=(lambda q: lat.get(q.split()[0], ticks(1))) if k[3] % 2 else ticks(2),
+    db = Database("db", max_connections=1 + k[2] % 4, query_latency=(lambda q: lat.get(q.split()[0], ticks(1))) if k[3] % 2 else ticks(2),
                   connection_latency=ticks(1 + k[4] % 2), commit_latency=ticks(1 + k[5] % 2), rollback_latency=ticks(1))
     db.create_table("users")
     rnd = rng_of(case, 10)
@@ -1570,7 +1646,7 @@ def f_replicated_store(case):
     reps = [KVStore(f"replica{i}", read_latency=ticks(1 + (k[0] + 2 * i) % 5), write_latency=ticks(1 + (k[1] + i) % 6)) for i in range(3 + k[2] % 2)]
     lv = [CL.ONE, CL.QUORUM, CL.ALL]
     rs = ReplicatedStore("replicated", reps, read_consistency=lv[k[3] % 3], write_consistency=lv[k[4] % 3],
-                         read_timeout=ticks(3 + k[5] % 6), write_timeout=ticks(3 + k[6] % 8))
+                         read_timeout=ticks([1, 3 + k[5] % 6, 40][k[5] % 3]), write_timeout=ticks([1, 3 + k[6] % 8, 40][k[6] % 3]))
     workers, evs = kv_workers(rs, case, 3, 24, 12, ops=("put", "put", "get", "get", "delete"))
     sim = mksim([rs] + reps + workers, 1500, events=evs)
     return Scenario(sim, workload=72, extra=lambda: {"logs": [w.log for w in workers], "status": rs.get_replica_status()})
@@ -1718,7 +1794,7 @@ def f_raft(case):
     net = Network("net")
     sms = [_kvsm() for _ in range(3 + 2 * (k[0] % 2))]
     nodes = [RaftNode(f"node-{i + 1}", net, state_machine=sm, election_timeout_min=ticks(20 + k[1] % 10),
-                      election_timeout_max=ticks(40 + k[2] % 20), heartbeat_interval=ticks(6 + k[3] % 6)) for i, sm in enumerate(sms)]
+                      election_timeout_max=ticks(40 + k[2] % 20), heartbeat_interval=ticks([6 + k[3] % 6, 6 + k[3] % 6, 70][k[3] % 3])) for i, sm in enumerate(sms)]
     for n in nodes:
         n.set_peers(nodes)
     wire_cluster(net, nodes, k)
@@ -1776,7 +1852,7 @@ def f_multi_paxos(case):
         nodes = [FlexiblePaxosNode(f"node-{i + 1}", net, state_machine=sm, phase1_quorum=q1, phase2_quorum=n - q1 + 1,
                                    heartbeat_interval=ticks(8 + k[3] % 8)) for i, sm in enumerate(sms)]
     else:
-        nodes = [MultiPaxosNode(f"node-{i + 1}", net, state_machine=sm, leader_lease_timeout=ticks(30 + k[2] % 20),
+        nodes = [MultiPaxosNode(f"node-{i + 1}", net, state_machine=sm, leader_lease_timeout=ticks([6, 30 + k[2] % 20][k[2] % 3 > 0]),
                                 heartbeat_interval=ticks(8 + k[3] % 8)) for i, sm in enumerate(sms)]
     for nd in nodes:
         nd.set_peers(nodes)
@@ -1806,7 +1882,7 @@ def f_membership(case):
     from happysimulator.components.network.network import Network
     k = K(case)
     net = Network("net")
-    protos = [MembershipProtocol(f"node-{i + 1}", net, probe_interval=ticks(8 + k[0] % 8), suspicion_timeout=ticks(24 + k[1] % 24),
+    protos = [MembershipProtocol(f"node-{i + 1}", net, probe_interval=ticks(8 + k[0] % 8), suspicion_timeout=ticks([3, 24 + k[1] % 24][k[1] % 3 > 0]),
                                  indirect_probe_count=1 + k[2] % 3, phi_threshold=[8.0, 4.0, 2.0][k[3] % 3]) for i in range(3 + k[4] % 3)]
     for p in protos:
         for o in protos:
@@ -1830,7 +1906,7 @@ def f_leader_election(case):
     net = Network("net")
     mk = [BullyStrategy, RingStrategy, lambda: RandomizedStrategy(ballot_range=1000)][k[0] % 3]
     els = [LeaderElection(f"node-{i + 1}", net, strategy=mk(), election_timeout=ticks(16 + k[1] % 16),
-                          heartbeat_interval=ticks(5 + k[2] % 6)) for i in range(3 + k[3] % 3)]
+                          heartbeat_interval=ticks([5 + k[2] % 6, 5 + k[2] % 6, 40][k[2] % 3])) for i in range(3 + k[3] % 3)]
     for a in els:
         for b in els:
             a.add_member(b)
@@ -1847,7 +1923,7 @@ def f_leader_election(case):
 def f_distributed_lock(case):
     from happysimulator.components.consensus import DistributedLock
     k = K(case)
-    lock = DistributedLock("lockmgr", lease_duration=ticks(6 + k[0] % 12), max_waiters=[0, 2][k[1] % 2])
+    lock = DistributedLock("lockmgr", lease_duration=ticks([1, 6 + k[0] % 12, 60][k[0] % 3]), max_waiters=[0, 1, 2][k[1] % 3])
     rnd = rng_of(case, 31)
 
     def client(self, e):
@@ -1858,6 +1934,8 @@ def f_distributed_lock(case):
             return None
         out = []
         exp = getattr(lock, "_pending_expiry", None)       # the repo example schedules the lease expiry this way
+        if exp is not None and exp.context.get("metadata", {}).get("fencing_token") != grant.fencing_token:
+            exp = None          # somebody else's lease (e.g. granted through the event API): not ours to schedule
         if exp is not None:
             lock._pending_expiry = None
             out.append(exp)
@@ -1970,8 +2048,8 @@ def f_sketch_collectors(case):
 def f_job_scheduler(case):
     from happysimulator.components.scheduling import JobDefinition, JobScheduler
     k = K(case)
-    sched = JobScheduler("etl", tick_interval=ticks(2 + k[0] % 4))
-    ws = {n: Replier(n, ticks(1 + (k[1 + i] % 8))) for i, n in enumerate(["extract", "transform", "load", "report"])}
+    sched = JobScheduler("etl", tick_interval=ticks([2 + k[0] % 4, 2 + k[0] % 4, 20][k[0] % 3]))
+    ws = {n: Replier(n, ticks([1 + (k[1 + i] % 8), 25][(k[1 + i] // 8) % 3 == 0])) for i, n in enumerate(["extract", "transform", "load", "report"])}
     sched.add_job(JobDefinition(name="extract", target=ws["extract"], event_type="Extract", interval=ticks(8 + k[5] % 8), priority=10))
     sched.add_job(JobDefinition(name="transform", target=ws["transform"], event_type="Transform", interval=ticks(8 + k[5] % 8), priority=5,
                                 depends_on=["extract"]))
@@ -2016,8 +2094,9 @@ def f_auto_scaler(case):
     lb, servers, mk = _fleet(k, sink, 2)
     pol = [asc.TargetUtilization(target=[0.3, 0.6][k[3] % 2]), asc.StepScaling(steps=[(0.5, 1), (0.8, 2)]),
            asc.QueueDepthScaling(scale_out_threshold=2 + k[4] % 4, scale_in_threshold=1)][k[5] % 3]
-    scaler = asc.AutoScaler("scaler", lb, mk, policy=pol, min_instances=1 + k[6] % 2, max_instances=4 + k[7] % 3,
-                            evaluation_interval=ticks(8 + k[0] % 8), scale_out_cooldown=ticks(10 + k[1] % 10), scale_in_cooldown=ticks(20 + k[2] % 10))
+    scaler = asc.AutoScaler("scaler", lb, mk, policy=[pol, pol, pol, None][k[6] % 4], min_instances=1 + k[6] % 2, max_instances=[2, 4 + k[7] % 3][k[7] % 3 > 0],
+                            evaluation_interval=ticks(8 + k[0] % 8), scale_out_cooldown=ticks([1, 10 + k[1] % 10, 60][k[1] % 3]),
+                            scale_in_cooldown=ticks([1, 20 + k[2] % 10, 80][k[2] % 3]))
     n = 80
     a = const_source("a", lb, 1, n, case["seed"])
     b = poisson_source("b", lb, 250.0, n // 2, case["seed"] + 1)
@@ -2032,8 +2111,8 @@ def f_rolling_deployer(case):
     k = K(case)
     sink = Sink("sink")
     lb, servers, mk = _fleet(k, sink, 2 + k[3] % 3)
-    dep = RollingDeployer("deployer", lb, mk, batch_size=1 + k[4] % 2, health_check_interval=ticks(3 + k[5] % 5),
-                          healthy_threshold=1 + k[6] % 2, max_failures=1 + k[7] % 3)
+    dep = RollingDeployer("deployer", lb, mk, batch_size=1 + k[4] % 3, health_check_interval=ticks([1, 3 + k[5] % 5, 30][k[5] % 3]),
+                          healthy_threshold=1 + k[6] % 3, max_failures=k[7] % 4)
     n = 70
     a = const_source("a", lb, 1 + k[0] % 2, n, case["seed"])
     sim = mksim([lb, dep, sink] + servers, n + 250, sources=[a],
@@ -2050,7 +2129,7 @@ def f_canary_deployer(case):
     ev_ = [None, cd.ErrorRateEvaluator(max_error_rate=0.05), cd.LatencyEvaluator(max_latency=ticks(2 + k[4] % 4))][k[5] % 3]
     dep = cd.CanaryDeployer("canary", lb, mk, stages=[cd.CanaryStage(0.1, ticks(10 + k[6] % 10)), cd.CanaryStage(0.5, ticks(10)),
                                                       cd.CanaryStage(1.0, ticks(8))],
-                            metric_evaluator=ev_, evaluation_interval=ticks(3 + k[7] % 4))
+                            metric_evaluator=ev_, evaluation_interval=ticks([3 + k[7] % 4, 3 + k[7] % 4, 25][k[7] % 3]))
     n = 80
     a = const_source("a", lb, 1 + k[0] % 2, n, case["seed"])
     b = poisson_source("b", lb, 100.0, n, case["seed"] + 1)
@@ -2065,8 +2144,8 @@ def f_infra_cpu_disk(case):
     from happysimulator.components import infrastructure as inf
     k = K(case)
     pol = [inf.FairShare(quantum_s=ticks(1 + k[0] % 3)), inf.PriorityPreemptive(quantum_s=ticks(1 + k[0] % 3))][k[1] % 2]
-    cpu = inf.CPUScheduler("cpu", policy=pol, context_switch_s=ticks(1) / 8)
-    prof = [inf.HDD(), inf.SSD(), inf.NVMe(native_queue_depth=2 + k[2] % 4)][k[3] % 3]
+    cpu = inf.CPUScheduler("cpu", policy=[pol, pol, None][k[4] % 3], context_switch_s=[0.0, ticks(1) / 8, ticks(2)][k[5] % 3])
+    prof = [inf.HDD(), inf.SSD(), inf.NVMe(native_queue_depth=2 + k[2] % 4), None][k[3] % 4]
     disk = inf.DiskIO("disk", profile=prof)
     rnd = rng_of(case, 61)
 
@@ -2115,14 +2194,18 @@ def f_infra_net_gc(case):
     from happysimulator.components import infrastructure as inf
     k = K(case)
     dns = inf.DNSResolver("dns", cache_capacity=2 + k[0] % 4, root_latency_s=ticks(3), tld_latency_s=ticks(2), auth_latency_s=ticks(1 + k[1] % 3),
-                          records={f"svc{i}.example.com": inf.DNSRecord(f"svc{i}.example.com", f"10.0.0.{i}", ttl_s=ticks(8 + 8 * (i % 3))) for i in range(6)})
+                          records={f"svc{i}.example.com": inf.DNSRecord(f"svc{i}.example.com", f"10.0.0.{i}", ttl_s=ticks([1, 8, 400][(i + k[5]) % 3])) for i in range(6)})
     cc = [inf.AIMD(), inf.Cubic(), inf.BBR()][k[2] % 3]
-    tcp = inf.TCPConnection("tcp", congestion_control=cc, base_rtt_s=ticks(2 + k[3] % 6), loss_rate=[0.0, 0.01, 0.1][k[4] % 3],
-                            retransmit_timeout_s=ticks(10 + k[5] % 20))
-    strat = [inf.StopTheWorld(base_pause_s=ticks(2), interval_s=ticks(20 + k[6] % 20)), inf.ConcurrentGC(pause_s=ticks(1), interval_s=ticks(10 + k[6] % 10)),
-             inf.GenerationalGC(minor_pause_s=ticks(1), major_pause_s=ticks(4), minor_interval_s=ticks(8 + k[6] % 8))][k[7] % 3]
-    gc = inf.GarbageCollector("gc", strategy=strat, heap_pressure=[None, 0.5, 0.9][k[0] % 3])
     rnd = rng_of(case, 62)
+    tcp = inf.TCPConnection("tcp", congestion_control=cc, base_rtt_s=ticks(2 + k[3] % 6), loss_rate=[0.0, 0.01, 0.1][k[4] % 3],
+                            retransmit_timeout_s=rnd.choice([ticks(1), ticks(10 + k[5] % 20)]),      # RTO shorter / longer than the RTT
+                            initial_cwnd=rnd.choice([1.0, 10.0]), initial_ssthresh=rnd.choice([2.0, 64.0]))
+    interval = ticks(8 + k[6] % 24)
+    pause = interval * rnd.choice([0.1, 0.25, 0.9, 1.5, 3.0])                                         # pauses shorter and longer than the period
+    strat = [inf.StopTheWorld(base_pause_s=pause, interval_s=interval, pressure_multiplier=rnd.choice([1.0, 3.0])),
+             inf.ConcurrentGC(pause_s=pause, interval_s=interval),
+             inf.GenerationalGC(minor_pause_s=pause / 2, major_pause_s=pause * 2, minor_interval_s=interval, major_threshold=rnd.choice([0.3, 0.75]))][k[7] % 3]
+    gc = inf.GarbageCollector("gc", strategy=strat, heap_pressure=[None, 0.5, 0.9, 1.0][k[0] % 4])
 
     def req(self, e):
         host = f"svc{rnd.randrange(7)}.example.com"
@@ -2150,7 +2233,8 @@ def f_api_gateway(case):
                                     timeout=ticks(3 + k[6] % 4)),
               "cart": RouteConfig("cart", backs["cart"], auth_required=True, timeout=None),
               "pay": RouteConfig("pay", backs["pay"], rate_limit_policy=mk_rl_policy(k[3] + 1, k[5], k[4]), auth_required=True, timeout=ticks(2 + k[7] % 3))}
-    gw = APIGateway("gateway", routes, auth_latency=ticks(1), auth_failure_rate=[0.0, 0.1][k[0] % 2])
+    gw = APIGateway("gateway", routes, auth_latency=[0.0, ticks(1), ticks(4)][k[1] % 3], auth_failure_rate=[0.0, 0.1, 1.0][k[0] % 3],
+                    route_extractor=[None, lambda e: e.context.get("metadata", {}).get("route")][k[2] % 2])
 
     def client(self, e):
         r = rnd.choice(["search", "search", "cart", "pay", "unknown"])
@@ -2170,19 +2254,19 @@ def f_microservice_patterns(case):
     slowish = lambda e: ticks(1 + rnd.randrange(2 + k[0] % 12))  # noqa: E731
     pay = Replier("payments", slowish)
     idem = IdempotencyStore("idem", pay, key_extractor=lambda e: e.context.get("metadata", {}).get("idempotency_key"),
-                            ttl=ticks(20 + k[1] % 40), max_entries=4 + k[2] % 8, cleanup_interval=ticks(10 + k[3] % 10))
+                            ttl=ticks([2, 20 + k[1] % 40][k[1] % 3 > 0]), max_entries=[1, 4 + k[2] % 8][k[2] % 4 > 0], cleanup_interval=ticks([2, 10 + k[3] % 10][k[3] % 3 > 0]))
     bus = Collector("bus")
-    outbox = OutboxRelay("outbox", bus, poll_interval=ticks(3 + k[4] % 5), batch_size=1 + k[5] % 4, relay_latency=ticks(1))
+    outbox = OutboxRelay("outbox", bus, poll_interval=ticks(3 + k[4] % 5), batch_size=1 + k[5] % 4, relay_latency=[0.0, ticks(1), ticks(4)][k[6] % 3])
     svc = {n: Replier(n, slowish) for n in ["inventory", "billing", "shipping"]}
     outcomes = []
-    saga = Saga("saga", [SagaStep("reserve", svc["inventory"], "reserve", svc["inventory"], "unreserve", timeout=ticks(4 + k[6] % 6)),
+    saga = Saga("saga", [SagaStep("reserve", svc["inventory"], "reserve", svc["inventory"], "unreserve", timeout=ticks([1, 4 + k[6] % 6, 40][k[6] % 3])),
                          SagaStep("charge", svc["billing"], "charge", svc["billing"], "refund", timeout=ticks(3 + k[7] % 6)),
                          SagaStep("ship", svc["shipping"], "ship", svc["shipping"], "cancel", timeout=None)],
                 on_complete=lambda sid, st, res: outcomes.append((sid, st.name)))
     backend = Replier("mesh_backend", slowish)
     side = Sidecar("sidecar", backend, rate_limit_policy=mk_rl_policy(k[0], k[1], k[2]) if k[3] % 2 else None, rate_limit_queue_capacity=5,
-                   circuit_failure_threshold=2 + k[4] % 3, circuit_success_threshold=1, circuit_timeout=ticks(10 + k[5] % 10),
-                   request_timeout=ticks(3 + k[6] % 6), max_retries=k[7] % 3, retry_base_delay=ticks(1 + k[0] % 3))
+                   circuit_failure_threshold=1 + k[4] % 4, circuit_success_threshold=1 + k[2] % 2, circuit_timeout=ticks([1, 10 + k[5] % 10][k[5] % 3 > 0]),
+                   request_timeout=ticks([1, 3 + k[6] % 6, 40][k[6] % 3]), max_retries=k[7] % 4, retry_base_delay=ticks([1 + k[0] % 3, 12][k[0] % 4 == 0]))
     primed = []
 
     def client(self, e):
